@@ -114,6 +114,10 @@ def run_impl(schedule, restart):
                 killed.append(self.pool.id)
             self.pool.broken = True
 
+        # SIGTERM ends a worker as well (its default disposition; that real workers have it is what the real-process probe
+        # checks under the server's own signal handlers): not demanding SIGKILL in particular
+        terminate = kill
+
     class FakeExecutor:
         def __init__(self, *a, **k):
             self.id = len(pools)
